@@ -1,6 +1,11 @@
 package ref
 
-import "testing"
+import (
+	"bytes"
+	"io"
+	"math/big"
+	"testing"
+)
 
 func TestSelf(t *testing.T) {
 	p, err := SelfTest()
@@ -27,3 +32,59 @@ func TestSM4Million(t *testing.T) {
 	}
 }
 func hx2(b []byte) string { const h = "0123456789abcdef"; o := make([]byte, 0, 2*len(b)); for _, v := range b { o = append(o, h[v>>4], h[v&15]) }; return string(o) }
+
+type pipeEnd struct {
+	r *io.PipeReader
+	w *io.PipeWriter
+}
+
+func (p pipeEnd) Read(b []byte) (int, error)  { return p.r.Read(b) }
+func (p pipeEnd) Write(b []byte) (int, error) { return p.w.Write(b) }
+
+func TestPeerSelfConsistency(t *testing.T) {
+	for _, suite := range []uint16{SuiteECCSM4CBC, SuiteECCSM4GCM} {
+		for _, auth := range []bool{false, true} {
+			ar, bw := io.Pipe()
+			br, aw := io.Pipe()
+			seed := byte(1)
+			rnd := func(n int) []byte {
+				b := make([]byte, n)
+				for i := range b {
+					seed = seed*77 + 13
+					b[i] = seed
+				}
+				return b
+			}
+			sk, ek, ck := big.NewInt(12345), big.NewInt(67890), big.NewInt(424242)
+			// minimal "certificates": the peer only walks the DER to the SPKI, so build a skeleton
+			mkCert := func(d *big.Int) []byte {
+				q := MulG(d)
+				pt := append([]byte{0, 4}, append(Pad32(q.X), Pad32(q.Y)...)...)
+				spki := derTLV(0x30, append(derTLV(0x30, []byte{6, 1, 1}), derTLV(0x03, pt)...))
+				f := derTLV(0x02, []byte{1})
+				tbs := derTLV(0x30, bytes.Join([][]byte{derTLV(0xa0, derTLV(0x02, []byte{2})), f, derTLV(0x30, nil), derTLV(0x30, nil), derTLV(0x30, nil), derTLV(0x30, nil), spki}, nil))
+				return derTLV(0x30, tbs)
+			}
+			cl := &Peer{Conn: pipeEnd{ar, aw}, Rand: rnd, Suites: []uint16{suite}}
+			sv := &Peer{Conn: pipeEnd{br, bw}, Rand: rnd, Suites: []uint16{suite}, SignKey: sk, EncKey: ek, SignCert: mkCert(sk), EncCert: mkCert(ek), RequestClientCert: auth}
+			if auth {
+				cl.ClientSignKey, cl.ClientCerts = ck, [][]byte{mkCert(ck)}
+			}
+			errc := make(chan error, 1)
+			go func() { errc <- sv.RunServer() }()
+			if err := cl.RunClient(); err != nil {
+				t.Fatalf("suite %x auth %v client: %v", suite, auth, err)
+			}
+			if err := <-errc; err != nil {
+				t.Fatalf("suite %x auth %v server: %v", suite, auth, err)
+			}
+			if !bytes.Equal(cl.Master, sv.Master) || !cl.Completed || !sv.Completed {
+				t.Fatal("masters differ")
+			}
+			go cl.WriteApp([]byte("hello"))
+			if d, err := sv.ReadApp(); err != nil || string(d) != "hello" {
+				t.Fatal("app data", err)
+			}
+		}
+	}
+}
